@@ -22,7 +22,8 @@ func formatEnumMemberName(name string) string {
 	}, tools.UpperSnakeCase(name))
 
 	if formatted != "" && formatted[0] >= '0' && formatted[0] <= '9' {
-		formatted = "_" + formatted
+		// not "_": `-1` already becomes `_1`
+		formatted = "N" + formatted
 	}
 
 	return formatted
